@@ -138,4 +138,4 @@ mod tests {
 
 #[cfg(kani)]
 #[path = "/verif/units/kani/rollback_delta.rs"]
-mod verif_kani;
+pub(crate) mod verif_kani;
